@@ -78,13 +78,13 @@ Section Stable.
   Qed.
 
   Theorem stable s : reimportable s ->
-    exists s2, try_as_spdc R_ops U K minpos (as_config R_ops U s) = Ok (s2, []) /\
+    exists s2, try_as_spdc_steps R_ops U K minpos (as_config R_ops U s) = Ok (s2, []) /\
                as_config R_ops U s2 = as_config R_ops U s.
   Proof.
     intros (Hmw & Hv & Hsig & Hidl & Hzs & Hzi & Hpp).
     rewrite as_config_matches_spec.
     pose proof deg_pos as Hdeg. pose proof nano_pos as Hnano. pose proof micro_pos as Hmicro. pose proof pico_pos as Hpico.
-    unfold Config.try_as_spdc, signal_step.
+    unfold Config.try_as_spdc_steps, signal_step.
     set (c1 := as_config_spec U s).
     destruct (beam_reimport (signal_polarization (cs_pm (cfg_cs0 R_ops c1))) (s_signal s) (round4 (s_zs s / micro)) (cfg_cs0 R_ops c1) Hsig)
       as (sig2 & Hsig2 & Hsp & Hsphi & Hsth & Hswl & Hsw).
